@@ -70,6 +70,7 @@ def sp_param(name, kind, value, quoted_ok=True):
 
 
 FIXED_FIRST = ("kw", "type")
+DELIMITERS = True   # bracket / brace delimited `#[educe[..]]` among the random spellings
 
 
 def shorthands(trait, params, level):
@@ -144,10 +145,17 @@ def layout_attrs(entries, rng=None, mode=None, indent=""):
         return ""
     if mode is None:
         mode = rng.choice(["one", "one", "split", "mixed"]) if rng else "one"
+
+    def one(body):
+        # the delimiter of an attribute's argument list is free: `#[educe(..)]`, `#[educe[..]]`, `#[educe{..}]`
+        o, c = ("(", ")")
+        if rng is not None and DELIMITERS and rng.random() < 0.12:
+            o, c = rng.choice([("[", "]"), ("{", "}")])
+        return "%s#[educe%s%s%s]\n" % (indent, o, body, c)
+
     if mode == "one" or len(entries) == 1:
-        return "%s#[educe(%s)]\n" % (indent, ", ".join(entries))
+        return one(", ".join(entries))
     if mode == "split":
-        return "".join("%s#[educe(%s)]\n" % (indent, e) for e in entries)
+        return "".join(one(e) for e in entries)
     k = rng.randrange(1, len(entries)) if rng else 1
-    return "%s#[educe(%s)]\n%s#[educe(%s)]\n" % (indent, ", ".join(entries[:k]), indent,
-                                                 ", ".join(entries[k:]))
+    return one(", ".join(entries[:k])) + one(", ".join(entries[k:]))
